@@ -41,11 +41,16 @@ def build_sigs(np, spec, dtype):
 			else:
 				out.append(np.array([], dtype=dtype))
 			continue
-		n, seed = e
+		n, seed = e[0], e[1]
+		hi = e[2] if len(e) > 2 else 0
 		n = min(n, universe)
 		rnd = random.Random(seed)
-		vals = sorted(rnd.sample(range(universe), n))
-		out.append(np.array(vals, dtype=dtype))
+		vals = rnd.sample(range(universe), n)
+		if hi and dtype not in ('u2', 'i2'):
+			# lift some values by 2^16 (and 2^32 for 64-bit types): they alias small values when truncated to a narrower type
+			shifts = [0, 2 ** 16] + ([2 ** 32, 2 ** 32 + 2 ** 16] if dtype in ('u8', 'i8') else [])
+			vals = [v + rnd.choice(shifts) for v in vals]
+		out.append(np.array(sorted(set(vals)), dtype=dtype))
 	return out
 
 
@@ -235,6 +240,8 @@ def run_case(case, ctx):
 		classes.append('empty_signature')
 	if any(e[0] == 'dup' for e in case['refs']):
 		classes.append('duplicate_signature')
+	if any(len(r) and int(r[-1]) >= 2 ** 16 for r in refs + queries):
+		classes.append('values>=2^16')
 	if any(len(r) >= 1000 for r in refs):
 		classes.append('big_signature')
 	if n == 0:
@@ -246,7 +253,7 @@ def run_case(case, ctx):
 @st.composite
 def bulk_case(draw, tier):
 	sig_entry = st.one_of(
-		st.tuples(st.one_of(st.integers(0, 3), st.integers(0, 40), st.integers(0, 40)), st.integers(0, 2 ** 20)).map(list),
+		st.tuples(st.one_of(st.integers(0, 3), st.integers(0, 40), st.integers(0, 40)), st.integers(0, 2 ** 20), st.sampled_from([0, 1, 0])).map(list),
 		st.tuples(st.just('dup'), st.integers(0, 40)).map(list),
 	)
 	nref_max = draw(st.sampled_from([3, 8, 20, 40]))
